@@ -104,10 +104,9 @@ class PerCPUVar(Sequence):
 
     def __getitem__(self, key):
         if 0 <= key < len(self):
+            reader = getattr(self.instance.ebpf, self.descriptor.map.name)
             return self.descriptor.unpack(
-                self.instance,
-                getattr(self.instance.ebpf, self.descriptor.map.name)
-                .data[key * self.descriptor.map.size:])
+                self.instance, reader.data[key * reader.size:])
         else:
             raise IndexError(f"no such CPU #{key}")
 
@@ -180,11 +179,14 @@ class PerCPUReader:
     def __init__(self, map, fd):
         self.map = map
         self.fd = fd
+        # the size of this very map: the descriptor is shared with
+        # instances of other classes in the hierarchy, which may differ
+        self.size = map.size
         self.data = None
 
     def read(self):
         self.data = memoryview(lookup_elem(self.fd, bytes(4),
-                               self.map.size * self.map.cpu_no))
+                               self.size * self.map.cpu_no))
 
 
 class PerCPUArrayMap(ArrayMap):
